@@ -14,8 +14,10 @@ use crate::{
     run::{Bin, SearchCfg},
 };
 
-/// All of these select exactly the lines whose content starts with `m` on
-/// the generated inputs (the marker occurs nowhere else).
+/// All of these select lines whose content starts with `m` on the generated
+/// inputs (the marker occurs nowhere else); the last three in addition need
+/// some content after the marker. Which lines match is always decided by
+/// the oracle or by the reference leg, never assumed from the marker.
 pub const PATTERNS: &[&str] = &[
     "m",
     "^m",
@@ -27,6 +29,12 @@ pub const PATTERNS: &[&str] = &[
     "m+",
     "(m)(x*)",
     "[k-n&&[^kln]]",
+    // can match `\r` but not `\n`: under CRLF the answer must not depend on
+    // whether multi-line mode was requested (the `\r` of a terminator is not
+    // line content)
+    "m[^\\n]",
+    "m[^\\n]$",
+    "m[xyz]*[^\\n0]$",
 ];
 
 #[derive(Clone, Debug)]
@@ -169,8 +177,14 @@ pub fn gen_input(rng: &mut Rng, term: Term, mask: &[bool], long_lines: bool) -> 
         } else {
             len
         };
+        // under a NUL terminator `\n` is ordinary line content
+        let lf_inside = term == Term::Nul && regime != 1;
         for _ in 0..len {
-            out.push(rng.pick(FILL));
+            if lf_inside && rng.chance(1, 9) {
+                out.push(b'\n');
+            } else {
+                out.push(rng.pick(FILL));
+            }
         }
         if i + 1 == n && rng.chance(1, 4) {
             break;
@@ -203,9 +217,10 @@ pub fn gen_case(rng: &mut Rng) -> CtxCase {
     let mask = gen_mask(rng, n, cfg.after, cfg.before);
     let long_lines = rng.chance(1, 6) && !cfg!(miri);
     let input = gen_input(rng, cfg.term, &mask, long_lines);
-    CtxCase {
-        pattern: rng.pick(PATTERNS).to_string(),
-        cfg,
-        input,
+    // "every byte but the terminator" is spelled per terminator
+    let mut pattern = rng.pick(PATTERNS).to_string();
+    if cfg.term == Term::Nul {
+        pattern = pattern.replace("\\n", "\\x00");
     }
+    CtxCase { pattern, cfg, input }
 }
